@@ -1744,7 +1744,8 @@ def _format_t(path, root=T):
     while i < len(path):
         op, arg = path[i], path[i + 1]
         if op == '.':
-            prepr.append('.' + arg)
+            # T reserves dunder attributes: such a step was recorded with T.__('name__')
+            prepr.append('.__(%r)' % arg[2:] if arg.startswith('__') else '.' + arg)
         elif op == '[':
             if type(arg) is tuple and len(arg) > 1:
                 index = ", ".join([_format_slice(x) for x in arg])
